@@ -352,8 +352,8 @@ def knownKey (vs : Nat) (dt : String) : Val → Option Key
   | .zero => if dt == "str" then some (.str "") else fromIntKey dt 0
   | _ => none
 
-/-- `Argmax<T>` / `Argmin<T>` (`generic_argmethods.go`): first element initialises; floats return
-    at once on a NaN or on the infinity of the searched direction (but only from the second element on). -/
+/-- `Argmax<T>` / `Argmin<T>` (`generic_argmethods.go`): floats return at once on a NaN or on the
+    infinity of the searched direction (first element included); otherwise the first element initialises. -/
 def argKernel (isMax isFloat : Bool) (ks : List Key) : Nat :=
   let rec go (i : Nat) (best : Nat) (f : Key) : List Key → Nat
     | [] => best
@@ -363,7 +363,9 @@ def argKernel (isMax isFloat : Bool) (ks : List Key) : Nat :=
       else go (i + 1) best f vs
   match ks with
   | [] => 0
-  | k :: rest => go 1 0 k rest
+  | k :: rest =>
+    if isFloat && (k.isNaN || k == .num (if isMax then infKey else -infKey)) then 0
+    else go 1 0 k rest
 
 def isFloatDt (dt : String) : Bool := dt == "f32" || dt == "f64"
 
@@ -385,6 +387,15 @@ def loadedOffsets (t : Dense) (newAP : AP) : List Int :=
 def argChunks (lastSize : Nat) (cells : List Key) : List (List Key) :=
   chunks lastSize (cells.length / lastSize) cells
 
+/-- flat Argmax/Argmin go through the tensor's iterator when the raw window is not known to be the
+    row-major listing of the elements (`t.RequiresIterator() || t.DataOrder().IsColMajor()`) -/
+def flatArgViaIter (t : Dense) : Bool := t.requiresIterator || t.ap.o.col
+
+/-- the storage offsets flat Argmax/Argmin read, in reading order: the iterator's offsets, or the whole
+    window left to right (contiguous row-major tensors) -/
+def flatArgOffsets (t : Dense) : List Int :=
+  if flatArgViaIter t then t.offsets else rangeI t.win.len
+
 inductive ArgRes where
   | ok (st : St) (d : Dense)
   | unknown            -- an element value the model cannot order (generator misuse)
@@ -395,12 +406,16 @@ def engArg (st : St) (isMax : Bool) (vs : Nat) (t : Dense) (axis : Int) : Res Ar
   if axis ≥ t.dims then throwErr "dimMismatch"
   let keysOf (cells : List Val) : Option (List Key) := cells.mapM (knownKey vs t.dt)
   if axis == -1 then
-    -- flat arg-reduction over the raw storage window
-    let raw ← t.rawCells st
-    match keysOf raw with
+    let viaIter := flatArgViaIter t
+    let cells ← (flatArgOffsets t).mapM (fun i => st.get t.win i)
+    match keysOf cells with
     | none => return .unknown
     | some ks =>
-      let i := argKernel isMax (isFloatDt t.dt) ks
+      let i :=
+        if viaIter then
+          -- `E.Arg{max,min}Iter(typ, data, IteratorFromDense(t), TotalSize)`: one run of all the elements
+          ((argChunks (totalSize t.shape).toNat ks).map (argKernel isMax (isFloatDt t.dt))).headD 0
+        else argKernel isMax (isFloatDt t.dt) ks   -- `E.Arg{max,min}Flat(typ, data)`
       let (st, r) := Dense.fresh st "i" [] false #[Val.lit s!"k{i}:i"]
       return .ok st r
   else
@@ -428,7 +443,7 @@ def engArg (st : St) (isMax : Bool) (vs : Nat) (t : Dense) (axis : Int) : Res Ar
 
 /-! ### Known-defect regions -/
 
-/-- F41 / F44: the storage window, read left to right, is not the row-major listing of the logical elements -/
+/-- F44: the storage window, read left to right, is not the row-major listing of the logical elements -/
 def Excl_rawNotLogical (t : Dense) : Bool :=
   let cs := allCoords t.shape
   if cs.length > 4096 then false else
@@ -438,11 +453,6 @@ def Excl_rawNotLogical (t : Dense) : Bool :=
     (a clone of a non-contiguous view keeps the view's window and flags): axis reductions refuse it,
     the all-axes shortcut folds its whole window, gaps included. -/
 def Excl_iterableNonView (t : Dense) : Bool := !t.isMaterializable && t.requiresIterator
-
-/-- F43: a float arg-reduction whose row starts with the infinity it looks for and contains it again -/
-def Excl_argInfTie (isMax : Bool) (rows : List (List Key)) : Bool :=
-  let inf := Key.num (if isMax then infKey else -infKey)
-  rows.any (fun r => r.head? == some inf && r.tail.contains inf)
 
 /-! ### Steps of M -/
 
@@ -625,32 +635,16 @@ def excl (ps : PState) (toks : List String) : List String × Bool :=
     | some (_, t), some _ =>
       ((if Excl_iterableNonView t then ["F44"] else []), false)
     | _, _ => ([], false)
-  | "arg" :: opn :: _ :: a :: axis :: rest =>
+  | "arg" :: _ :: _ :: a :: axis :: _ =>
     match ps.obj a, parseAxis axis with
     | some (_, t), some ax =>
-      let vs := (vsOf rest).getD 0
-      let isMax := opn == "argmax"
-      if ax == -1 then
-        let f43 := isFloatDt t.dt && (match t.rawCells ps.st with
-          | .ok raw => (match raw.mapM (knownKey vs t.dt) with | some ks => Excl_argInfTie isMax [ks] | none => false)
-          | _ => false)
-        ((if Excl_rawNotLogical t then ["F41"] else []) ++ (if f43 then ["F43"] else []), false)
+      if ax == -1 then ([], false)
       else
         match argAxes t.dims ax with
         | some axes =>
           let f28 := Excl_vectorT t axes
           let f24 := Excl_shortStrides t
-          let f43 := isFloatDt t.dt && (match t.ap.T axes with
-            | .ok r =>
-              let nap := match r with | .noop _ _ => t.ap | .ok ap _ => ap
-              (match (loadedOffsets t nap).mapM (fun i => ps.st.get t.win i), nap.shape.getLast? with
-                | .ok cells, some d =>
-                  (match cells.mapM (knownKey vs t.dt) with
-                  | some ks => d > 0 && Excl_argInfTie isMax (argChunks d.toNat ks)
-                  | none => false)
-                | _, _ => false)
-            | _ => false)
-          ((if f28 then ["F28"] else []) ++ (if f24 then ["F24"] else []) ++ (if f43 then ["F43"] else []), false)
+          ((if f28 then ["F28"] else []) ++ (if f24 then ["F24"] else []), false)
         | none => ([], false)
     | _, _ => ([], false)
   | _ => ([], false)
